@@ -326,6 +326,13 @@ def _arg_src(ctx, fn, a):
     return ("%s=%s" % (a["kw"], s)) if a.get("kw") else s
 
 
+def _raise_line(f):
+    """raise of a registered exception object: with a message, without arguments (str(e) == ''), or with an empty text."""
+    msg = f["fail"].get("msg", "text")
+    args = {"text": ", 'boom from %s'" % f["name"], "none": "", "empty": ", ''", "multiline": ", 'boom\\nfrom %s'" % f["name"]}[msg]
+    return "    raise vlog.make_exc(%r, %s%s)" % (f["name"], f["fail"]["cls"], args)
+
+
 def render_fn(p, fid, ctx, prelude):
     f = p["fns"][fid]
     ctx.local_imports = ["import dds"] if f.get("local_dds") else []
@@ -358,7 +365,7 @@ def _render_fn_lines(p, fid, ctx, prelude):
     for (vid, access) in f["reads"]:
         lines.append("    r.append(%s)" % ctx.var_expr(vid, access))
     if f.get("fail") and f["fail"].get("when") == "start":
-        lines.append("    raise vlog.make_exc(%r, %s, 'boom from %s')" % (f["name"], f["fail"]["cls"], f["name"]))
+        lines.append(_raise_line(f))
     for i, s in enumerate(f["stmts"]):
         k = s["k"]
         if k == "call":
@@ -431,7 +438,7 @@ def _render_fn_lines(p, fid, ctx, prelude):
             raise ValueError(k)
         lines.append("    r.append(x%d)" % i)
     if f.get("fail") and f["fail"].get("when", "end") == "end":
-        lines.append("    raise vlog.make_exc(%r, %s, 'boom from %s')" % (f["name"], f["fail"]["cls"], f["name"]))
+        lines.append(_raise_line(f))
     if f.get("ret") == "empty_str":
         lines.append("    return \"\"")
     elif f.get("ret") == "empty_bytes":
